@@ -798,6 +798,13 @@ func (env *Env) callRecSpec(sf *SpecFunc, args []TV) TV {
 			break
 		}
 	}
+	if sf.Opaque && !sf.Rec && specIsLeaf(e.P, sf) {
+		// an opaque function that is not recursive and calls no other spec function (a marker such as nd, a plain
+		// quantified definition) needs no unfolding bound: always the same fuel term, also inside the
+		// bodies of other spec functions - otherwise an atom met while unfolding a definition (lower fuel) is a different
+		// term from the same atom in a hypothesis, and triggers keyed on it never fire
+		fuel = Term("(FS (FS FZ))")
+	}
 	ts := []Term{fuel}
 	for i, a := range args {
 		ts = append(ts, a.T)
@@ -1435,4 +1442,21 @@ func (env *Env) trHyp(x Expr) Term {
 		return "(forall ((fu_h Fuel)) " + t + ")"
 	}
 	return t
+}
+
+
+// specIsLeaf: the body of the spec function calls no recursive or opaque spec function (decided on the printed body)
+func specIsLeaf(P *Program, sf *SpecFunc) bool {
+	body := exprString(sf.Body)
+	for name, cands := range P.specs {
+		if !strings.Contains(body, name+"(") {
+			continue
+		}
+		for _, g := range cands {
+			if g.Rec || g.Opaque {
+				return false
+			}
+		}
+	}
+	return true
 }
